@@ -1396,7 +1396,22 @@ std::string Generator::GeneratorImpl::generateCode(const AnalyserEquationAstPtr 
         if (ast->rightChild() != nullptr) {
             code = generateOperatorCode(mProfile->plusString(), ast);
         } else {
-            code = generateCode(ast->leftChild());
+            // A unary plus generates no code of its own, so its operand needs
+            // parentheses whenever it is itself an operator.
+
+            auto astLeftChild = ast->leftChild();
+
+            code = generateCode(astLeftChild);
+
+            if (isRelationalOperator(astLeftChild)
+                || isLogicalOperator(astLeftChild)
+                || isPlusOperator(astLeftChild)
+                || isMinusOperator(astLeftChild)
+                || isTimesOperator(astLeftChild)
+                || isDivideOperator(astLeftChild)
+                || isPiecewiseStatement(astLeftChild)) {
+                code = "(" + code + ")";
+            }
         }
 
         break;
